@@ -5,6 +5,7 @@ import (
 	"go/constant"
 	"go/token"
 	"go/types"
+	"os"
 	"strings"
 	"unicode/utf8"
 
@@ -75,12 +76,12 @@ type Interp struct {
 	ex      *Explorer
 
 	// goroutines
-	gs       []*G
-	cur      *G
-	killed   bool
-	pending  interface{} // panic value raised in a non-main goroutine, re-raised in main
-	deadlock string
-	schedExp bool // explore schedules at synchronisation points
+	gs                     []*G
+	cur                    *G
+	killed                 bool
+	pending                interface{} // panic value raised in a non-main goroutine, re-raised in main
+	deadlock               string
+	schedExp               bool // explore schedules at synchronisation points
 	preempts, preemptBound int
 	schedCoarse            bool
 	curIns                 ssa.Instruction
@@ -88,27 +89,28 @@ type Interp struct {
 	pickRot                int
 
 	// side tables (fresh per path)
-	mutexes    map[*Value]*mutexState
-	afterFuncs []*afterFunc
-	timers     []*Value // utils.Timer objects in creation order
+	mutexes      map[*Value]*mutexState
+	afterFuncs   []*afterFunc
+	timers       []*Value // utils.Timer objects in creation order
 	timerFired   []int
 	timerWaiting []int
 	timerStub    bool
+	phN          int
 	timerType    types.Type
 	nows         []*Term
 	armed        []armedWait
 	wraps        map[*Value]Value
-	tickBudget int
-	nowCount   int
-	lastNow    *Term
-	clockSym   bool
-	fmtMemo    []fmtMemoEntry
-	errCount   int
-	observed   []observation
-	funcsSeen  map[*ssa.Function]bool
-	acc        *accessLog
-	accPaused  bool
-	lastPos    string
+	tickBudget   int
+	nowCount     int
+	lastNow      *Term
+	clockSym     bool
+	fmtMemo      []fmtMemoEntry
+	errCount     int
+	observed     []observation
+	funcsSeen    map[*ssa.Function]bool
+	acc          *accessLog
+	accPaused    bool
+	lastPos      string
 }
 
 func newInterp(prog *ssa.Program, ex *Explorer) *Interp {
@@ -163,6 +165,17 @@ func (in *Interp) get(fr *frame, v ssa.Value) Value {
 	case *ssa.Global:
 		p, ok := in.globals[x]
 		if !ok {
+			if x.Pkg != nil {
+				if pp := x.Pkg.Pkg.Path(); !isModulePath(pp) && !initReal[pp] && pp != zzverifPath {
+					// a package-level variable of a package whose init is not run: it is zero here.
+					// Recorded, and an error unless known to be harmless (uninitGlobalOK).
+					name := pp + "." + x.Name()
+					if !uninitGlobalOK[name] && os.Getenv("GOSYM_GLOBALS_WARN") == "" {
+						panic(engineError{"read of " + name + ": package-level variable of a package whose init function is not run by the engine (model the caller or add the package to initReal)"})
+					}
+					in.stub("global " + name)
+				}
+			}
 			var cell Value = zero(x.Type().(*types.Pointer).Elem())
 			p = &cell
 			in.globals[x] = p
@@ -792,7 +805,10 @@ func (in *Interp) eval(fr *frame, v ssa.Value) Value {
 					it.pos++
 					return Tuple{B(true), C(64, uint64(p)), Zext(b0, 32)}
 				}
-				panic(engineError{"range over string with symbolic non-ASCII byte"})
+				r, sz := in.decodeRuneSym(it.s.b[it.pos:])
+				p := it.pos
+				it.pos += sz
+				return Tuple{B(true), C(64, uint64(p)), r}
 			}
 			r, sz := utf8.DecodeRuneInString(cs)
 			p := it.pos
@@ -1158,4 +1174,48 @@ func (in *Interp) binop(x *ssa.BinOp, a, b Value) Value {
 		return Bin("bvule", tb, ta)
 	}
 	panic(engineError{"binop " + x.Op.String()})
+}
+
+// decodeRuneSym: utf8.DecodeRune over bytes that may be symbolic, case by case (each case is a
+// path decision); anything that is not a well-formed sequence is RuneError with width 1.
+func (in *Interp) decodeRuneSym(rest []*Term) (*Term, int) {
+	e := in.ex
+	b0 := rest[0]
+	if e.decide(Bin("bvult", b0, C(8, 0x80))) {
+		return Zext(b0, 32), 1
+	}
+	in8 := func(x *Term, lo, hi uint64) *Term {
+		return And(Bin("bvule", C(8, lo), x), Bin("bvule", x, C(8, hi)))
+	}
+	cont := func(x *Term) *Term { return in8(x, 0x80, 0xBF) }
+	low := func(x *Term, mask uint64) *Term { return Zext(Bin("bvand", x, C(8, mask)), 32) }
+	shl := func(x *Term, n uint64) *Term { return Bin("bvshl", x, C(32, n)) }
+	if len(rest) >= 2 && e.decide(And(in8(b0, 0xC2, 0xDF), cont(rest[1]))) {
+		return Bin("bvor", shl(low(b0, 0x1F), 6), low(rest[1], 0x3F)), 2
+	}
+	if len(rest) >= 3 {
+		b1ok := Or(And(Bin("=", b0, C(8, 0xE0)), in8(rest[1], 0xA0, 0xBF)),
+			Or(And(Bin("=", b0, C(8, 0xED)), in8(rest[1], 0x80, 0x9F)),
+				And(And(in8(b0, 0xE1, 0xEF), Not(Bin("=", b0, C(8, 0xED)))), cont(rest[1]))))
+		if e.decide(And(b1ok, cont(rest[2]))) {
+			return Bin("bvor", Bin("bvor", shl(low(b0, 0x0F), 12), shl(low(rest[1], 0x3F), 6)), low(rest[2], 0x3F)), 3
+		}
+	}
+	if len(rest) >= 4 {
+		b1ok := Or(And(Bin("=", b0, C(8, 0xF0)), in8(rest[1], 0x90, 0xBF)),
+			Or(And(Bin("=", b0, C(8, 0xF4)), in8(rest[1], 0x80, 0x8F)),
+				And(in8(b0, 0xF1, 0xF3), cont(rest[1]))))
+		if e.decide(And(And(b1ok, cont(rest[2])), cont(rest[3]))) {
+			return Bin("bvor", Bin("bvor", shl(low(b0, 0x07), 18), shl(low(rest[1], 0x3F), 12)),
+				Bin("bvor", shl(low(rest[2], 0x3F), 6), low(rest[3], 0x3F))), 4
+		}
+	}
+	return C(32, 0xFFFD), 1
+}
+
+// uninitGlobalOK: package-level variables of packages whose init is not run that may be used with
+// their zero value (the value Go gives them before init as well).
+var uninitGlobalOK = map[string]bool{
+	// *time.Location values are opaque to the time model (instants are UTC nanoseconds)
+	"time.UTC": true, "time.Local": true,
 }
